@@ -89,6 +89,9 @@ void harness(void)
 	V_CHECK("recv: at most one retry", g_calls <= 2 && IMP(in_len, g_calls >= 1));
 	V_CHECK("recv: a retry happens only after MissingBuffer with room left, and offers more space than before", IMP(g_calls == 2, in_r0 == MPT_ERROR(MissingBuffer) && in_len < in_max && grow >= 1 && dq.data.len <= in_max));
 	V_CHECK("recv: prepended space shifts input position and message window by the same amount", IMP(g_calls == 2, g_seen_curr[1] == in_curr + grow && g_seen_pos[1] == in_pos + grow && g_seen_len[1] == in_mlen));
+	/* the decoder asked for target space (room between the end of its message window and its input position): a
+	 * retry that offers it exactly as much as before cannot succeed */
+	V_CHECK("recv: the retry after MissingBuffer offers the decoder more target space than the refused attempt", IMP(g_calls == 2, g_seen_curr[1] - (g_seen_pos[1] + g_seen_len[1]) > g_seen_curr[0] - (g_seen_pos[0] + g_seen_len[0])));
 	V_CHECK("recv: the retry sees the same bytes behind the new space (content unchanged, only moved)", IMP(g_calls == 2 && in_k < in_len, g_seen_k[1] == g_seen_k[0]));
 	V_CHECK("recv: message reported exactly when the decoder delivered one; errors handed through", IMP(g_calls == 1 && in_r0 >= 0, r == (in_m0 >= 0 ? 1 : 0)) && IMP(g_calls == 2 && in_r1 >= 0, r == (in_m1 >= 0 ? 1 : 0)) && IMP(g_calls == 2 && in_r1 < 0, r == in_r1) && IMP(g_calls == 1 && in_r0 < 0, r == in_r0 || (in_r0 == MPT_ERROR(MissingBuffer) && r == MPT_ERROR(MissingBuffer))));
 	V_CHECK("recv: consumed prefix is released after every successful decode, never after a failed one", g_shifts == (r >= 0 ? 1 : 0));
